@@ -300,6 +300,31 @@ func (a datom) String() string {
 	return s
 }
 
+// selectField: atoms of `v.f` given the atoms of v. A value wrapped into field g of a struct
+// literal is found again under f == g and is invisible under any other field.
+func selectField(as []datom, f seg) []datom {
+	if as == nil {
+		return nil
+	}
+	out := make([]datom, 0, len(as))
+	for _, a := range as {
+		if !a.leaf && len(a.segs) > 0 {
+			last := a.segs[len(a.segs)-1]
+			if last.kind == segWrap && last.name != "" {
+				if last.name == f.name {
+					out = append(out, datom{root: a.root, segs: append([]seg{}, a.segs[:len(a.segs)-1]...)})
+				}
+				continue
+			}
+		}
+		out = append(out, a.with(f))
+	}
+	if len(out) == 0 {
+		return []datom{{leaf: true}}
+	}
+	return out
+}
+
 func mapAtoms(as []datom, s seg) []datom {
 	if as == nil {
 		return nil
@@ -348,9 +373,49 @@ func carriersOf(fn *Func) []carrier {
 		pv := sig.Params().At(i)
 		if r := roleOfType(pv.Type()); r != roleNone {
 			out = append(out, carrier{"p:" + pv.Name(), nil, r})
+			continue
+		}
+		// a parameter struct of the module that bundles syntax / schema values — possibly
+		// behind pointers, slices and maps ("[]" steps): its fields carry
+		var steps []string
+		t := pv.Type()
+		for k := 0; k < 4; k++ {
+			switch u := t.Underlying().(type) {
+			case *types.Pointer:
+				t = u.Elem()
+				continue
+			case *types.Slice:
+				t = u.Elem()
+				steps = append(steps, "[]")
+				continue
+			case *types.Map:
+				t = u.Elem()
+				steps = append(steps, "[]")
+				continue
+			}
+			break
+		}
+		nt := namedOf(t)
+		if st, ok := t.Underlying().(*types.Struct); ok && isModuleType(t) && nt != nil && !nt.Obj().Exported() {
+			// (unexported bundle types only: exported context types such as PathContext are
+			// passed along unchanged and are not what a recursion descends on)
+			for j := 0; j < st.NumFields(); j++ {
+				f := st.Field(j)
+				if r := roleOfType(f.Type()); r != roleNone {
+					out = append(out, carrier{"p:" + pv.Name(), append(append([]string{}, steps...), f.Name()), r})
+				}
+			}
 		}
 	}
 	return out
+}
+
+// segMatchesPathStep: a carrier path step is a field name or "[]" (an element).
+func segMatchesPathStep(sg seg, step string) bool {
+	if step == "[]" {
+		return sg.kind == segIndex
+	}
+	return sg.kind == segField && sg.name == step
 }
 
 func isExprStruct(t types.Type) bool {
@@ -546,7 +611,7 @@ func (d *deriver) derive0(e ast.Expr, depth int) []datom {
 		if o := info.ObjectOf(x.Sel); o != nil && o.Pkg() != nil {
 			pkg = o.Pkg().Path()
 		}
-		return mapAtoms(d.derive(x.X, depth+1), seg{kind: segField, name: x.Sel.Name, pkg: pkg})
+		return selectField(d.derive(x.X, depth+1), seg{kind: segField, name: x.Sel.Name, pkg: pkg})
 	case *ast.IndexExpr:
 		return mapAtoms(d.derive(x.X, depth+1), seg{kind: segIndex, pkg: namedCollPkg(info.TypeOf(x.X))})
 	case *ast.SliceExpr:
@@ -561,10 +626,20 @@ func (d *deriver) derive0(e ast.Expr, depth int) []datom {
 		return leaf
 	case *ast.CompositeLit:
 		var out []datom
-		for _, el := range x.Elts {
+		var lst *types.Struct
+		if tv := info.TypeOf(x); tv != nil {
+			lst, _ = derefType(tv).Underlying().(*types.Struct)
+		}
+		for i, el := range x.Elts {
 			v := el
+			fld := ""
 			if kv, ok := el.(*ast.KeyValueExpr); ok {
 				v = kv.Value
+				if k, ok := kv.Key.(*ast.Ident); ok && lst != nil {
+					fld = k.Name
+				}
+			} else if lst != nil && i < lst.NumFields() {
+				fld = lst.Field(i).Name()
 			}
 			if tv := info.TypeOf(v); tv != nil && !mayCarry(tv) {
 				continue
@@ -573,7 +648,9 @@ func (d *deriver) derive0(e ast.Expr, depth int) []datom {
 			if a == nil {
 				return nil
 			}
-			out = append(out, mapAtoms(a, seg{kind: segWrap})...)
+			// the wrap remembers which field holds the value: selecting that field undoes it,
+			// selecting another field does not see it (selectField)
+			out = append(out, mapAtoms(a, seg{kind: segWrap, name: fld})...)
 		}
 		if len(out) == 0 {
 			return leaf
@@ -788,7 +865,7 @@ func carrierRoleOfRoot(a datom, callerCarriers []carrier) role {
 		}
 		ok := true
 		for i, f := range c.fields {
-			if a.segs[i].kind != segField || a.segs[i].name != f {
+			if !segMatchesPathStep(a.segs[i], f) {
 				ok = false
 			}
 		}
@@ -825,7 +902,7 @@ func relate(atoms []datom, callerCarriers []carrier, r role) (relKind, string) {
 			}
 			ok := true
 			for i, f := range c.fields {
-				if a.segs[i].kind != segField || a.segs[i].name != f {
+				if !segMatchesPathStep(a.segs[i], f) {
 					ok = false
 				}
 			}
@@ -929,7 +1006,17 @@ func relate(atoms []datom, callerCarriers []carrier, r role) (relKind, string) {
 func dynTypesOf(p *Prog, d *deriver, recvExpr ast.Expr) map[*types.Named]bool {
 	v := d.exprValue(recvExpr, 0)
 	if v == nil {
-		return nil
+		// built by a helper with several return statements, or from a constraint chosen by a helper
+		return dynTypesMulti(p, d, recvExpr, 0)
+	}
+	if c, ok := v.(*ast.CallExpr); ok {
+		if n := len(c.Args); n >= 1 {
+			if nm := ctorTypeFor(p, d.funcOfNode(c).Info().TypeOf(c.Args[n-1])); nm == nil {
+				if m := dynTypesMulti(p, d, c, 0); m != nil {
+					return m
+				}
+			}
+		}
 	}
 	out := map[*types.Named]bool{}
 	switch x := v.(type) {
@@ -969,6 +1056,198 @@ func dynTypesOf(p *Prog, d *deriver, recvExpr ast.Expr) map[*types.Named]bool {
 		})
 	}
 	return out
+}
+
+// dynTypesMulti: the decoder expression types e can hold, following helper functions through
+// all of their return statements; nil = unknown.
+func dynTypesMulti(p *Prog, d *deriver, e ast.Expr, depth int) map[*types.Named]bool {
+	if depth > 4 || e == nil {
+		return nil
+	}
+	fn := d.funcOfNode(e)
+	if fn == nil {
+		return nil
+	}
+	info := fn.Info()
+	out := map[*types.Named]bool{}
+	switch x := ast.Unparen(e).(type) {
+	case *ast.CompositeLit:
+		if tv := info.TypeOf(x); tv != nil && isExprStruct(tv) {
+			if n := namedOf(tv); n != nil {
+				out[n] = true
+				return out
+			}
+		}
+		return nil
+	case *ast.TypeAssertExpr:
+		return dynTypesMulti(p, d, x.X, depth+1)
+	case *ast.Ident:
+		o := info.ObjectOf(x)
+		for f := fn; f != nil; f = f.Parent {
+			as := f.Assignments(o)
+			if len(as) == 1 {
+				switch s := as[0].(type) {
+				case *ast.AssignStmt:
+					if len(s.Rhs) == 1 {
+						return dynTypesMulti(p, d, s.Rhs[0], depth+1)
+					}
+					for i, l := range s.Lhs {
+						if isIdentObj(f.Info(), l, o) && i < len(s.Rhs) {
+							return dynTypesMulti(p, d, s.Rhs[i], depth+1)
+						}
+					}
+				case *ast.ValueSpec:
+					if len(s.Values) == 1 {
+						return dynTypesMulti(p, d, s.Values[0], depth+1)
+					}
+				}
+			}
+			if len(as) > 0 {
+				break
+			}
+		}
+		return nil
+	case *ast.CallExpr:
+		f := calleeOf(info, x)
+		if f == nil {
+			return nil
+		}
+		if fname(f) == "newExpression" && len(x.Args) >= 1 {
+			cts := consTypesOf(p, d, x.Args[len(x.Args)-1], depth+1)
+			if cts == nil {
+				return nil
+			}
+			for _, ct := range cts {
+				nm := ctorTypeFor(p, ct)
+				if nm == nil {
+					return nil
+				}
+				out[nm] = true
+			}
+			return out
+		}
+		callee := p.FuncOf[f]
+		if callee == nil || callee.Body == nil {
+			return nil
+		}
+		okAll, any := true, false
+		ast.Inspect(callee.Body, func(n ast.Node) bool {
+			if _, isLit := n.(*ast.FuncLit); isLit {
+				return false
+			}
+			rs, ok := n.(*ast.ReturnStmt)
+			if !ok || !okAll {
+				return okAll
+			}
+			if len(rs.Results) == 0 {
+				okAll = false
+				return false
+			}
+			if isNilIdent(callee.Info(), rs.Results[0]) {
+				return true
+			}
+			m := dynTypesMulti(p, d, rs.Results[0], depth+1)
+			if m == nil {
+				okAll = false
+				return false
+			}
+			any = true
+			for k := range m {
+				out[k] = true
+			}
+			return true
+		})
+		if !okAll || !any {
+			return nil
+		}
+		return out
+	}
+	return nil
+}
+
+// consTypesOf: the concrete constraint types e can hold (nil = unknown).
+func consTypesOf(p *Prog, d *deriver, e ast.Expr, depth int) []types.Type {
+	if depth > 5 || e == nil {
+		return nil
+	}
+	fn := d.funcOfNode(e)
+	if fn == nil {
+		return nil
+	}
+	info := fn.Info()
+	e = ast.Unparen(e)
+	if tv := info.TypeOf(e); tv != nil {
+		if _, isI := tv.Underlying().(*types.Interface); !isI {
+			return []types.Type{tv}
+		}
+	}
+	switch x := e.(type) {
+	case *ast.Ident:
+		o := info.ObjectOf(x)
+		for f := fn; f != nil; f = f.Parent {
+			if def := f.SingleDef(o); def != nil {
+				return consTypesOf(p, d, def, depth+1)
+			}
+			if len(f.Assignments(o)) > 0 {
+				// several definitions: union
+				var out []types.Type
+				for _, dd := range defsOfIdent(f, o) {
+					if dd == nil {
+						return nil
+					}
+					ts := consTypesOf(p, d, dd, depth+1)
+					if ts == nil {
+						return nil
+					}
+					out = append(out, ts...)
+				}
+				return out
+			}
+		}
+		return nil
+	case *ast.CallExpr:
+		if tv, ok := info.Types[x.Fun]; ok && tv.IsType() && len(x.Args) == 1 {
+			return consTypesOf(p, d, x.Args[0], depth+1)
+		}
+		f := calleeOf(info, x)
+		if f == nil {
+			return nil
+		}
+		callee := p.FuncOf[f]
+		if callee == nil || callee.Body == nil {
+			return nil
+		}
+		var out []types.Type
+		okAll := true
+		ast.Inspect(callee.Body, func(n ast.Node) bool {
+			if _, isLit := n.(*ast.FuncLit); isLit {
+				return false
+			}
+			rs, ok := n.(*ast.ReturnStmt)
+			if !ok || !okAll {
+				return okAll
+			}
+			if len(rs.Results) == 0 {
+				okAll = false
+				return false
+			}
+			if isNilIdent(callee.Info(), rs.Results[0]) {
+				return true
+			}
+			ts := consTypesOf(p, d, rs.Results[0], depth+1)
+			if ts == nil {
+				okAll = false
+				return false
+			}
+			out = append(out, ts...)
+			return true
+		})
+		if !okAll || len(out) == 0 {
+			return nil
+		}
+		return out
+	}
+	return nil
 }
 
 type termEdge struct {
@@ -1132,7 +1411,7 @@ func runTermination(p *Prog, r *Report) {
 						default:
 							atoms = d.derive(recvExpr, 0)
 							for _, fld := range c.fields {
-								atoms = mapAtoms(atoms, seg{kind: segField, name: fld, pkg: g2.Pkg.PkgPath})
+								atoms = selectField(atoms, seg{kind: segField, name: fld, pkg: g2.Pkg.PkgPath})
 							}
 						}
 					} else {
@@ -1144,7 +1423,39 @@ func runTermination(p *Prog, r *Report) {
 							}
 						}
 						if idx >= 0 && idx < len(e.call.Args) && !(sig.Variadic() && idx == sig.Params().Len()-1) {
-							atoms = d.derive(e.call.Args[idx], 0)
+							arg := e.call.Args[idx]
+							if len(c.fields) == 0 {
+								atoms = d.derive(arg, 0)
+							} else {
+								// a bundled field: read it from the literal that built the bundle when
+								// that is visible, otherwise derive the bundle and step into the field
+								src := ast.Unparen(arg)
+								argFn := d.funcOfNode(e.call)
+								if id, ok := src.(*ast.Ident); ok && argFn != nil {
+									if def := argFn.SingleDef(argFn.Info().ObjectOf(id)); def != nil {
+										src = ast.Unparen(def)
+									}
+								}
+								if u, ok := src.(*ast.UnaryExpr); ok && u.Op == token.AND {
+									src = ast.Unparen(u.X)
+								}
+								if cl, ok := src.(*ast.CompositeLit); ok && argFn != nil && len(c.fields) == 1 {
+									if fa := fieldActual(argFn.Info(), cl, c.fields[0]); fa != nil {
+										atoms = d.derive(fa, 0)
+									} else {
+										atoms = []datom{{leaf: true}}
+									}
+								} else {
+									atoms = d.derive(arg, 0)
+									for _, fld := range c.fields {
+										if fld == "[]" {
+											atoms = mapAtoms(atoms, seg{kind: segIndex})
+										} else {
+											atoms = selectField(atoms, seg{kind: segField, name: fld, pkg: g2.Pkg.PkgPath})
+										}
+									}
+								}
+							}
 						}
 					}
 					if atoms == nil {
